@@ -166,6 +166,11 @@ func c14Package(rng *rand.Rand, idx int) (rcase, []c14op) {
 						body.Ref = g.name()
 					}
 					o.Body = &dialect.Body{Content: "application/json", Schema: body.Dialect(&sp.CompSchemas), Required: true}
+					if nbody == 1 || rng.Intn(3) == 0 {
+						// other media types next to application/json, sorting before and after it: JSON is what is decoded, in
+						// place and through a requestBodies component alike
+						o.Body.AlsoContent = [][]string{{"application/geo+json"}, {"*/*", "text/csv"}, {"application/cbor", "application/xml"}}[rng.Intn(3)]
+					}
 					if (body.Ref == "" && len(sp.CompBodies) == 0) || rng.Intn(3) == 0 {
 						// a components.requestBodies entry (its schema defined in place unless the body is a schema $ref);
 						// the first body that is an object defined in place always becomes one
